@@ -741,7 +741,8 @@ type corpusFile struct {
 		Tokens []string `json:"tokens"` // error tokens, located by their first occurrence in Text
 		Errs   []errTok `json:"errs"`
 	} `json:"sources"`
-	Fileset *fsCase `json:"fileset"`
+	Fileset *fsCase  `json:"fileset"`
+	Dbg     *dbgProg `json:"debugger_program"`
 	Failure *struct {
 		Input json.RawMessage `json:"input"`
 	} `json:"failure"` // a replay file written by ./check
@@ -749,6 +750,8 @@ type corpusFile struct {
 		Input json.RawMessage `json:"input"`
 	} `json:"inputs"`
 }
+
+var corpusDbg []dbgProg // debugger programs found by loadCorpus
 
 func loadCorpus(path string) (hists [][]source, sets []fsCase) {
 	b, err := os.ReadFile(path)
@@ -787,6 +790,9 @@ func loadCorpus(path string) (hists [][]source, sets []fsCase) {
 		}
 		if c.Fileset != nil {
 			sets = append(sets, *c.Fileset)
+		}
+		if c.Dbg != nil {
+			corpusDbg = append(corpusDbg, *c.Dbg)
 		}
 	}
 	return
@@ -882,6 +888,41 @@ func main() {
 		idx++
 	}
 	rep.Extra["fileset_histories"] = len(sets)
+	// part C: debugger stops (direct oracle only; the stop positions come from the same FileSet.Position as part A/B)
+	for _, p := range corpusDbg {
+		wd.Beat(p)
+		st, _, _ := rn.runDbg(p)
+		rep.Count("dbg:corpus:"+p.Text, st > 0)
+	}
+	if a.Replay == "" {
+		nC := 120
+		if a.Thorough() {
+			nC = 2500
+		}
+		if a.N > 0 {
+			nC = a.N
+		}
+		totStops, totChecked, nAfter := 0, 0, 0
+		for k := 0; k < nC; k++ {
+			p := genDbgProg(rng.Fork())
+			wd.Beat(p)
+			st, ch, after := rn.runDbg(p)
+			totStops += st
+			totChecked += ch
+			if after {
+				nAfter++
+			}
+			rep.Count("dbg:"+p.Mode+p.Before+"|"+p.Text+strings.Join(p.Script, ","), after)
+			rep.Dist(fmt.Sprintf("dbg:stops:%s", bucket(st)))
+			if k%53 == 7 {
+				rep.Sample(p)
+			}
+		}
+		rep.Extra["debugger_programs"] = nC
+		rep.Extra["debugger_stops_checked"] = totStops
+		rep.Extra["debugger_stops_matched_to_executed_statement"] = totChecked
+		rep.Extra["debugger_programs_with_checked_stop_after_dropped_branch"] = nAfter
+	}
 	cw.Close()
 	rep.Write()
 }
